@@ -103,6 +103,13 @@ def check_tiling(tt, offs, T, case, deep=True):
         for x in range(NX):
             r, c = tt.locate((y, x))
             require(oy[r][0] <= y < oy[r][1] and ox[c][0] <= x < ox[c][1], "locate(%d,%d)=%r but that tile covers %r", y, x, (r, c), (oy[r], ox[c]))
+            if (y + x) % 3 == 0 or y != x and y < 3:
+                # the pixel may also be given as an Index2d (the other spelling of SomeIndex2d)
+                from odc.geo.types import ixy_, iyx_
+
+                for nm, pix in (("iyx_", iyx_(y, x)), ("ixy_", ixy_(x, y))):
+                    got = tuple(tt.locate(pix))
+                    require(got == (r, c), "locate(%s) of pixel row %d col %d = %r, locate((%d, %d)) = %r", nm, y, x, got, y, x, (r, c))
         if not deep and y > 2:
             break
     for bad in ((-1, 0), (0, -1), (NY, 0), (0, NX)):
